@@ -151,6 +151,17 @@ func (s *RichSink) WriteString(str string) (int, error) {
 	return s.SimSink.Write([]byte(str))
 }
 
+// Grow and Len make the sink look like a bytes.Buffer / strings.Builder to code that pre-sizes
+// its destination; as there, Grow panics on a negative count.
+func (s *RichSink) Grow(n int) {
+	s.Upgrades++
+	if n < 0 {
+		panic("RichSink.Grow: negative count")
+	}
+}
+
+func (s *RichSink) Len() int { return len(s.SimSink.Cur) }
+
 func (s *RichSink) WriteByte(c byte) error {
 	s.Upgrades++
 	_, err := s.SimSink.Write([]byte{c})
